@@ -19,9 +19,9 @@ mod verif_kani_ndt {
     fn vk_ndt_accessors() {
         let x = any_ndt();
         let (d, t) = (x.date(), x.time());
-        assert!(x.year() == d.year() && x.month() == d.month() && x.month0() == d.month0() && x.day() == d.day() && x.day0() == d.day0());
-        assert!(x.ordinal() == d.ordinal() && x.ordinal0() == d.ordinal0() && x.weekday() == d.weekday() && x.iso_week() == d.iso_week());
-        assert!(x.hour() == t.hour() && x.minute() == t.minute() && x.second() == t.second() && x.nanosecond() == t.nanosecond());
+        assert!(x.year() == d.year() && x.month() == d.month() && x.month0() == d.month0() && x.day() == d.day() && x.day0() == d.day0(), "x.year() == d.year() && x.month() == d.month() && x.month0() == d.mont");
+        assert!(x.ordinal() == d.ordinal() && x.ordinal0() == d.ordinal0() && x.weekday() == d.weekday() && x.iso_week() == d.iso_week(), "x.ordinal() == d.ordinal() && x.ordinal0() == d.ordinal0() && x.weekda");
+        assert!(x.hour() == t.hour() && x.minute() == t.minute() && x.second() == t.second() && x.nanosecond() == t.nanosecond(), "x.hour() == t.hour() && x.minute() == t.minute() && x.second() == t.se");
     }
 
     // fns: Datelike::{with_year, with_month, with_month0, with_day, with_day0, with_ordinal, with_ordinal0} for NaiveDateTime
